@@ -48,9 +48,10 @@ class Gen:
     residue below 1000 ns that is unique per timer-add of the script while the clock only moves in
     multiples of 1000 ns, so two timers never have the same expiry (the heap's tie order is C09's)."""
 
-    def __init__(self, rng, dels=True, sigs=True, mods=True, dupkeys=False, stale=True):
+    def __init__(self, rng, dels=True, sigs=True, mods=True, dupkeys=False, stale=True, dupfd=True):
         self.rng = rng
         self.dels, self.use_sigs, self.mods, self.dupkeys, self.stale = dels, sigs, mods, dupkeys, stale
+        self.dupfd = dupfd
         self.nextkey = 1
         self.residue = 0
         self.lines = []
@@ -125,7 +126,7 @@ class Gen:
         if r < 0.40:
             return self.op_timer_add()[0]
         if r < 0.50:
-            if self.fds and self.rng.random() < 0.25:
+            if self.dupfd and self.fds and self.rng.random() < 0.25:
                 return self.op_poll_add(fd=self.rng.choice(self.fds))[0]      # duplicate / re-add of a known fd
             return self.op_poll_add()[0]
         if r < 0.56 and self.use_sigs and not inside:
@@ -208,9 +209,9 @@ class Gen:
         return out + self.lines
 
 
-def gen_general(rng, size=3, collide=False, sigs=True):
+def gen_general(rng, size=3, collide=False, sigs=True, dupfd=True):
     """C08-style history: everything, from outside and from inside callbacks."""
-    g = Gen(rng, dupkeys=rng.random() < 0.3, sigs=sigs)
+    g = Gen(rng, dupkeys=rng.random() < 0.3, sigs=sigs, dupfd=dupfd)
     nseg = rng.randint(1, size)
     for _ in range(nseg):
         for _ in range(rng.randint(0, 6)):
